@@ -1,5 +1,6 @@
 import OmplModel.Model.PathOps
 import OmplModel.Model.PathOpsRepair
+import OmplModel.Model.PathOpsWhole
 import OmplModel.Model.SpaceDist
 import OmplModel.Model.SpaceInterp
 import OmplModel.Driver.SpaceIO
@@ -14,6 +15,10 @@ Line-protocol driver of the C17 path post-processing model (header `pathops`).
   subdivide | interpn <count>
   interp vsc <k> <n>*k
   reduce <ms> <me> <rangeRatio> <k> <raw>*k cm …
+  goals <m> <state>*m                -> ok
+  bsplines <maxSteps> <minChange> iv <m> (<state> <0/1>)*m cm …      (smoothBSpline; iv = the routine's own isValid calls)
+  bgoal <obj> <attempts> <rangeRatio> <snap> <k> <u>*k cm …          (findBetterGoal, scripted draws, goals cycle)
+  perturbs <obj> <step> <ms> <me> <snap> <kh> <h>*kh <ks> <state>*ks cm …   (perturbPath, scripted draws + scripted sampler)
   repair <attempts> <k> <sample>*k iv <m> (<state> <0/1>)*m cm …   -> r <2*originalValid + result> out …
   pshort <ms> <me> <rangeRatio> <snap> <k> <u>*k cm …   -> <result> | old <result of the code before fix F55>
 answers `r <ret> out <k> <state>*k` (`r -1` for the void routines), `idx-error` if the model's checked
@@ -28,6 +33,7 @@ open OmplModel OmplModel.Driver OmplModel.PathOps
 structure DSt where
   sp : Option (Space Float) := none
   path : List (St Float) := []
+  goals : List (St Float) := []
 
 def init (ts : List String) : Option DSt :=
   match ts with
@@ -103,6 +109,35 @@ structure PSt where
 instance : BEq PSt := ⟨fun a b => a.id == b.id⟩
 
 def retStr (b : Bool) : String := if b then "1" else "0"
+
+/-- the double operations of the whole-routine models at `Float` -/
+def fops : NumOps Float :=
+  { add := fun a b => a + b, sub := fun a b => a - b, mul := fun a b => a * b, div := fun a b => a / b,
+    lt := fun a b => a < b, le := fun a b => a <= b, zero := 0.0, two := 2.0, negOne := -1.0,
+    eps := Float.ofBits 0x3CB0000000000000 }
+
+/-- the first two reals of a state (the harness's cost fields read `copyToReals`) -/
+def xy : St Float → Float × Float
+  | .rv (x :: y :: _) => (x, y)
+  | .rv [x] => (x, 0.0)
+  | .ccons (.rv (x :: y :: _)) _ => (x, y)
+  | _ => (0.0, 0.0)
+
+/-- harness objectives: `len` (path length) and the `StateCostIntegralObjective` fields `toll`, `step`, `checker`
+(end-point trapezoid rule, no motion-cost interpolation) -/
+def objOf (sp : Space Float) (name : String) : Option (Obj (St Float) Float) :=
+  let mk (sc : St Float → Float) : Obj (St Float) Float :=
+    { identity := 0.0, combine := fun a b => a + b, better := fun a b => a < b,
+      motion := fun a b => 0.5 * dist sp a b * (sc a + sc b) }
+  match name with
+  | "len" => some { identity := 0.0, combine := fun a b => a + b, better := fun a b => a < b, motion := dist sp }
+  | "toll" => some (mk fun s => let (x, y) := xy s
+      1.0 + (if x > 3.0 && x < 4.5 then 24.0 else 0.0) + (if y > 6.0 && y < 7.0 then 11.0 else 0.0))
+  | "step" => some (mk fun s => if (xy s).1 < 5.0 then 1.0 else 12.0)
+  | "checker" => some (mk fun s => let (x, y) := xy s
+      if x.isNaN || y.isNaN || x.abs > 1e9 || y.abs > 1e9 then 1.0
+      else if (x.floor.toInt64.toInt + y.floor.toInt64.toInt) % 2 != 0 then 9.0 else 1.0)
+  | _ => none
 
 def step (st : DSt) (ts : List String) : DSt × String :=
   match ts with
@@ -199,6 +234,61 @@ def step (st : DSt) (ts : List String) : DSt × String :=
               | some (out, r) => "r " ++ retStr r ++ " " ++ showPath out
               | none => "idx-error"
             (st, show1 true ++ " | old " ++ show1 false)
+          | _, _, _, _, _, _ => (st, "bad-op")
+        | "goals", n :: r =>
+          match (do let n ← parseNat? n; pStates sp n r) with
+          | some (gs, []) => ({ st with goals := gs }, "ok")
+          | _ => (st, "bad-op")
+        | "bsplines", ms :: mc :: "iv" :: m :: ivs =>
+          match parseNat? ms, parseFloatBits? mc, (do let m ← parseNat? m; pCm1 sp m {} ivs) with
+          | some ms, some mc, some vtab =>
+            let E : BsEnv (St Float) := {
+              valid := fun a => (vtab.get? (key a)).getD false
+              cm := cmq
+              mid := fun a b => interp sp a b 0.5
+              moved := fun c t => dist sp c t > mc }
+            (st, "r -1 " ++ showPath (smoothBSpline E ms st.path))
+          | _, _, _ => (st, "bad-op")
+        | "bgoal", obj :: attempts :: rr :: snap :: k :: us =>
+          match objOf sp obj, parseNat? attempts, parseFloatBits? rr, parseFloatBits? snap, parseNat? k, us.mapM parseFloatBits? with
+          | some O, some attempts, some rr, some snap, some k, some us =>
+            if k ≠ us.length ∨ st.goals.isEmpty then (st, "bad-op") else
+            let usA := us.toArray
+            let gA := st.goals.toArray
+            let E : BgEnv (St Float) Float Float := {
+              N := fops, O := O, cm := cmq, dist := dist sp, interp := interp sp
+              goalAt := fun g => gA.getD (g % gA.size) (gA.getD 0 (.rv []))
+              pairValid := fun _ _ => true
+              u := fun i => usA.getD i 0.0
+              maxGoals := min 10 gA.size
+              samplingAttempts := attempts
+              rangeRatio := rr
+              snap := snap }
+            match findBetterGoal E st.path with
+            | some (out, r) => (st, "r " ++ retStr r ++ " " ++ showPath out)
+            | none => (st, "idx-error")
+          | _, _, _, _, _, _ => (st, "bad-op")
+        | "perturbs", obj :: step :: ms :: me :: snap :: kh :: rest2 =>
+          match objOf sp obj, parseFloatBits? step, parseNat? ms, parseNat? me, parseFloatBits? snap, parseNat? kh with
+          | some O, some step, some ms, some me, some snap, some kh =>
+            match (rest2.take kh).mapM parseFloatBits?, rest2.drop kh with
+            | some hs, ks :: rest3 =>
+              match (do let ks ← parseNat? ks; pStates sp ks rest3), st.path with
+              | some (samples, []), first :: _ =>
+                if hs.length ≠ kh then (st, "bad-op") else
+                let hA := hs.toArray
+                let sA := samples.toArray
+                let E : PpEnv (St Float) Float Float := {
+                  N := fops, O := O, cm := cmq, dist := dist sp, interp := interp sp
+                  hn := fun i => hA.getD i 0.0
+                  samp := fun i => sA.getD i first
+                  stepSize := step
+                  snap := snap }
+                match perturbPath E ms me st.path with
+                | some (out, r) => (st, "r " ++ retStr r ++ " " ++ showPath out)
+                | none => (st, "idx-error")
+              | _, _ => (st, "bad-op")
+            | _, _ => (st, "bad-op")
           | _, _, _, _, _, _ => (st, "bad-op")
         | "repair", attempts :: k :: rest2 =>
           -- repair <attempts> <k> <sample>*k iv <m> (<state> <0/1>)*m   (+ cm section): checkAndRepair with scripted raw samples
